@@ -268,7 +268,13 @@ func (w *World) openOrig(first bool) {
 		var err error
 		ok := w.call("NewStore", true, func() error {
 			if w.file == nil {
-				st, err = g.NewStoreEx(nil, w.cbs)
+				if w.c.Cfg.RandSeed%2 == 0 {
+					// a typed nil file pointer is a memory-only store too (NewStoreEx tests for it)
+					var typedNil *MemFile
+					st, err = g.NewStoreEx(typedNil, w.cbs)
+				} else {
+					st, err = g.NewStoreEx(nil, w.cbs)
+				}
 			} else {
 				st, err = g.NewStoreEx(w.file, w.cbs)
 			}
